@@ -102,7 +102,7 @@ def _short_byte_strings():
 # ---------------------------------------------------------------------------------------------------
 # randomisation
 # ---------------------------------------------------------------------------------------------------
-@contract("bellows.ash.generate_random_sequence", props=["C03"])
+@contract("bellows.ash.generate_random_sequence", props=["C03", "C01"])
 def _(c):
     c.arg("length", T.range(0, 4096))
     # loop invariant: `rand` is the LFSR state after _i steps; the output so far has length _i.  The
@@ -117,7 +117,7 @@ def _(c):
     c.ensures("post.length", lambda length, result: len(result) == length)
 
 
-@contract("bellows.ash.DataFrame._randomize", props=["C03", "C02"])
+@contract("bellows.ash.DataFrame._randomize", props=["C03", "C02", "C01"])
 def _(c):
     c.arg("data", T.bytes)
     c.raises("too_long", AssertionError, when=lambda data: len(data) > 256)
@@ -245,7 +245,7 @@ def rejected_by_crc_or_length(data):
     return len(data) < 3 or data[-2:] != be16(crc(data[:-2]))
 
 
-@contract("bellows.ash.DataFrame.from_bytes", props=["C03", "C02"])
+@contract("bellows.ash.DataFrame.from_bytes", props=["C03", "C02", "C01"])
 def _(c):
     c.inline = True
     c.arg("cls", T.const(ash.DataFrame))
@@ -492,6 +492,7 @@ def _wire_lemmas(tier):
 
 
 _index.extra("C03")(_wire_lemmas)
+_index.extra("C01")(_wire_lemmas)  # interoperation with a conforming peer rests on the same wire tables
 
 
 def _crc_standin(seed, tier):
